@@ -7,7 +7,14 @@ model ``ref/cyl.py`` (Gram-Schmidt, 50 digits; no rotation formula shared with t
 * ``quad``  - ``Cylinder.quadrature``: membership, positive weights, volume, moments;
 * ``trans`` - ``compute_transmission_map``: range, mu = 0, monotone in mu, equal to the
   reference sum over the returned points, equal (to the accuracy of the quadrature) to an
-  independent converged integral under every rigid motion and from the other end.
+  independent converged integral under every rigid motion and from the other end;
+* ``share`` - two cylinders built from the *same* axis / base / size Variables: every history
+  of up to 3 operations {quadrature, beam_intersection, compute_transmission_map} x {A, B};
+  each result equals the one on freshly built objects and is right for the solid as it was
+  constructed; no Variable handed to the package is modified (also checked in every other family);
+* ``large`` - detector banks whose (points x detectors) count crosses the package's limit for
+  one vectorised evaluation (2e7), through the public function only: = 1 without attenuation,
+  every value equal to the same detector computed in a small call and to the reference sum.
 
 Readings chosen (DESIGN 3.3, weakest reading consistent with the code's documentation):
 * "sum to its volume / integrate exactly": to the 8 significant digits of the tabulated
@@ -42,6 +49,8 @@ RULE = (
     '{1e-3, 0.2, 1.2, 1e3}^2 x unit; per cylinder 10 start positions x up to 28 directions (incl. parallel to the axis exactly, to 1 ulp and tilted by 1e-13..1e-5) '
     '(rays), 3 deterministic quadrature kinds (quad), and scenes = cylinder x beam x 14 '
     'detectors x 12 attenuation levels x 32 rigid motions / other-end description (trans); '
+    'all 258 operation histories of length <= 3 over two cylinders sharing Variables (share); '
+    'detector banks with points x detectors from 2.5e5 to 1.2e8 around the 2e7 limit (large); '
     'a configuration is non-trivial when the ray set meets the solid / the quadrature is '
     'for a rotated or translated cylinder / the attenuation is non-zero; distinct = '
     'distinct canonical case hashes x inner configurations counted in states'
@@ -54,14 +63,28 @@ ASSUMPTIONS = [
     'reference wavelength of tabulated absorption cross sections is 1.7982 angstrom (2200 m/s)',
     'Monte-Carlo quadrature kind excluded (not deterministic)',
     'aspect ratio radius/height within 1e-6..1e6 (both within 1e-3..1e3 of one unit); detectors outside the sample at 7 x its size',
+    'the value of the map for one detector position does not depend on the other positions in the same call (1e-12)',
+    'no scipp Variable handed to Cylinder / Material / the three functions may be modified or replaced in the object holding it',
+    'the 2e7 broadcast limit of absorption/base.py is only used to size the banks and to label outcome classes; it is never patched',
 ]
 BOUND = {
     'quick': '31 axes x 3 bases x unit m (+ mm on the far base): rays on 6 (r,h) pairs, all 3 quadrature kinds on all 16; '
-    'transmission scenes: 4 (r,h) x 3 beams x 2 base axes x 3 kinds x 2 unit/cross-section styles x 32 motions',
+    'transmission scenes: 4 (r,h) x 3 beams x 2 base axes x 3 kinds x 2 unit/cross-section styles x 32 motions; '
+    'shared Variables: 12 axes (8 octants, +-z, in-plane, (0.6,0,-0.8)) x 4 sharing modes x 258 histories (depth 3), cheap rule; '
+    'large banks (public API, real limit): 1-d 2224 detectors x 8995 points (detector-by-detector branch); 2-d banks of 20 or 40 rows just above '
+    '2e7 pairs for 180, 385, 1375, 2827, 8995 points (with and without attenuation) and just above 4e7 for 385 and 2827; 1-d banks of 2.5e5 and 2.5e6 pairs',
     'thorough': '31 axes x 3 bases x 16 (r,h) x {m, mm} (+ mixed radius unit): rays and quadrature; '
-    'transmission scenes: 16 (r,h) x 3 beams x 2 base axes x 3 kinds x 4 unit/cross-section styles x 32 motions',
+    'transmission scenes: 16 (r,h) x 3 beams x 2 base axes x 3 kinds x 4 unit/cross-section styles x 32 motions; '
+    'shared Variables: all 31 axes x 4 sharing modes x 258 histories, cheap and medium rule; '
+    'large banks (public API, real limit): 1-d banks just above 2e7 pairs for 1375, 2827, 8995 points and one 1-d bank just below (385 x 51948); '
+    '2-d banks just above 2e7, 4e7, 8e7, 1.2e8 pairs (2, 3, 5, 7 pieces) for all of 60, 120, 180, 385, 770, 1375, 2827, 5654, 8995 points, '
+    'with and without attenuation; 1-d banks of 2.5e5 and 2.5e6 pairs',
 }
-REQUIRED_CLASSES = [
+_REQUIRED = [
+    'arguments_unmodified', 'history_equals_fresh', 'history_uses_both_cylinders',
+    'share_axis', 'share_base', 'share_axis+base', 'share_size',
+    'large_above_limit', 'large_below_limit', 'large_pieces_1', 'large_pieces_2', 'large_pieces_3', 'large_layout_1d', 'large_layout_2d',
+    'large_points_not_divisible_by_2', 'large_points_not_divisible_by_3', 'large_vacuum', 'large_atten', 'large_equals_small_calls',
     'reused_instance_equals_fresh', 'ray_hit', 'ray_miss', 'ray_graze', 'ray_dont_care', 'ray_from_inside', 'ray_from_outside',
     'ray_parallel_axis_exact', 'ray_nearly_parallel_axis', 'ray_perp_axis_exact', 'ray_clipped_at_start',
     'axis_neg_z', 'axis_pos_z', 'axis_in_plane', 'axis_no_rotation_branch', 'axis_norm_above_one',
@@ -69,6 +92,7 @@ REQUIRED_CLASSES = [
     'trans_mu_zero', 'trans_attenuated', 'trans_motion_rotation', 'trans_motion_translation',
     'trans_other_end', 'trans_moved_axis_neg_z', 'trans_det_unit_differs', 'trans_model_sum_ok',
 ]
+REQUIRED_CLASSES = {'quick': _REQUIRED, 'thorough': [*_REQUIRED, 'large_pieces_5', 'large_pieces_7']}
 
 EPS = 2.0 ** -52
 _DEBUG = bool(os.environ.get('C18_DEBUG'))
@@ -142,13 +166,74 @@ def _axis_class(rec, a):
 
 
 # ----------------------------------------------------------------------------------------
+# arguments and fields are read-only for the package
+
+
+def _sig(v):
+    """Everything observable about a scipp Variable, as a comparable value."""
+    return (tuple(v.dims), tuple(v.shape), str(v.unit), str(v.dtype), np.ascontiguousarray(v.values).tobytes())
+
+
+class _Guard:
+    """Snapshot of every Variable handed to the package (and of which Variable object each
+    Cylinder / Material field holds); ``check`` reports any that changed."""
+
+    def __init__(self):
+        self.vars = []  # (name, variable, signature)
+        self.objs = []  # (name, object, {field: variable object})
+
+    def var(self, name, v):
+        self.vars.append((name, v, _sig(v)))
+        return v
+
+    def obj(self, name, o, fields):
+        held = {f: getattr(o, f) for f in fields}
+        self.objs.append((name, o, held))
+        for f, v in held.items():
+            if not any(v is w for _, w, _ in self.vars):
+                self.var(f'{name}.{f}', v)
+        return o
+
+    def cylinder(self, name, c):
+        return self.obj(name, c, ('symmetry_line', 'center_of_base', 'radius', 'height'))
+
+    def material(self, name, m):
+        self.obj(name + '.scattering_params', m.scattering_params, ('absorption_cross_section', 'total_scattering_cross_section'))
+        return self.obj(name, m, ('effective_sample_number_density',))
+
+    def check(self, rec, site, op, **sub):
+        """True if nothing was modified by ``op``."""
+        ok = True
+        for name, v, sig in self.vars:
+            rec.validated += 1
+            if _sig(v) != sig:
+                ok = False
+                rec.viol(site, 'argument_modified', f'{op} modified {name}: now {np.asarray(v.values).tolist()!r:.200} [{v.unit}]', what=name, op=op, **sub)
+        for name, o, held in self.objs:
+            for f, v in held.items():
+                if getattr(o, f) is not v:
+                    ok = False
+                    rec.viol(site, 'field_rebound', f'{op} replaced the Variable held by {name}.{f}', what=f'{name}.{f}', op=op, **sub)
+        if ok:
+            rec.cls('arguments_unmodified')
+        return ok
+
+
+# ----------------------------------------------------------------------------------------
 # enumeration
 
 
 def cases(tier):
-    out = []
+    out = list(_large_cases(tier))
     units = ('m', 'mm')
     names = list(AXES)
+    share_axes = names if tier == 'thorough' else [n for n in names if n.startswith('diag') or n in (
+        '+z', '-z', 'xz-', 'inplane')]
+    for i, aname in enumerate(share_axes):
+        for mode in SHARE_MODES:
+            for q in (('cheap',) if tier == 'quick' else ('cheap', 'medium')):
+                out.append({'kind': 'share', 'axis': aname, 'axis2': names[(names.index(aname) * 7 + 3) % len(names)], 'mode': mode,
+                            'unit': units[i % 2], 'qkind': q, 'depth': 3})
     for i, aname in enumerate(names if tier == 'thorough' else names[:: max(1, len(names) // 6)]):
         for q in KINDS:
             out.append({'kind': 'reuse', 'axis': aname, 'axis2': names[(i * 7 + 3) % len(names)], 'unit': units[i % 2], 'qkind': q})
@@ -184,6 +269,9 @@ def cases(tier):
                     for unit, det_unit, xs in styles:
                         out.append({'kind': 'trans', 'a0': a0, 'r': r, 'h': h, 'unit': unit, 'det_unit': det_unit,
                                     'xs': xs, 'beam': beam, 'qkind': q})
+    # long-running cases first so that no worker is left with them at the end (stable otherwise)
+    weight = {'large': 0, 'trans': 1, 'rays': 2, 'share': 3}
+    out.sort(key=lambda c: (weight.get(c['kind'], 4), -KINDS.index(c['qkind']) if c['kind'] == 'trans' else 0))
     return out
 
 
@@ -274,12 +362,15 @@ def _run_rays(case, rec):
     site = 'Cylinder.beam_intersection'
     for r, h in (RH if case['sizes'] == 'all' else RH_SIX):
         rec.states += 1
-        c = Cylinder(sc.vector(axis), sc.vector(base, unit=unit), sc.scalar(r, unit=unit), sc.scalar(h, unit=unit))
+        g = _Guard()
+        c = g.cylinder('cylinder', Cylinder(sc.vector(axis), sc.vector(base, unit=unit), sc.scalar(r, unit=unit), sc.scalar(h, unit=unit)))
         names, starts, dirs = _ray_set(fr, axis, r, h)
         got_v = c.beam_intersection(
-            sc.vectors(dims=['ray'], values=starts, unit=unit), sc.vectors(dims=['ray'], values=dirs)
+            g.var('start_point', sc.vectors(dims=['ray'], values=starts, unit=unit)),
+            g.var('direction', sc.vectors(dims=['ray'], values=dirs)),
         )
         rec.transitions += 1
+        g.check(rec, site, 'beam_intersection', axis=axis, base=base, r=r, h=h)
         if got_v.unit != sc.Unit(unit) or got_v.dims != ('ray',):
             rec.viol(site, 'wrong_unit_or_shape', f'{got_v.dims} {got_v.unit}', axis=axis, r=r, h=h)
             continue
@@ -297,8 +388,7 @@ def _run_rays(case, rec):
             delta = 64 * EPS * (dist + r + h)
             lo = cyl.ray_length(p, d, r, h, -delta)
             hi = cyl.ray_length(p, d, r, h, delta)
-            exact = cyl.ray_length(p, d, r, h)
-            g = float(got[i])
+            gi = float(got[i])
             if nxa2[i] == 0.0:
                 rec.cls('ray_parallel_axis_exact')
             elif nxa2[i] < 1e-8:
@@ -329,8 +419,8 @@ def _run_rays(case, rec):
                 if iv is not None and iv[0] == 0 and cyl.ray_length(p, [-x for x in d], r, h) > 0:
                     rec.cls('ray_clipped_at_start')
             tau = 1e-9 * float(hi) + 1e-300
-            if not (math.isfinite(g) and float(lo) - tau <= g <= float(hi) + tau):
-                rec.viol(site, 'path_length', f'{name}: got {g!r}, exact {float(exact)!r} (admissible [{float(lo)!r}, {float(hi)!r}])',
+            if not (math.isfinite(gi) and float(lo) - tau <= gi <= float(hi) + tau):
+                rec.viol(site, 'path_length', f'{name}: got {gi!r}, exact {float(cyl.ray_length(p, d, r, h))!r} (admissible [{float(lo)!r}, {float(hi)!r}])',
                          axis=axis, base=base, r=r, h=h, unit=unit, ray=name,
                          start=starts[i].tolist(), direction=dirs[i].tolist())
         if hit_any:
@@ -359,9 +449,11 @@ def _run_quad(case, rec):
         rec.states += 1
         rec.evals += 1
         sub = {'axis': axis, 'base': base, 'r': r_in, 'h': h, 'unit': unit, 'r_unit': r_unit, 'qkind': kind}
-        c = Cylinder(sc.vector(axis), sc.vector(base, unit=unit), sc.scalar(r_in, unit=r_unit), sc.scalar(h, unit=unit))
+        g = _Guard()
+        c = g.cylinder('cylinder', Cylinder(sc.vector(axis), sc.vector(base, unit=unit), sc.scalar(r_in, unit=r_unit), sc.scalar(h, unit=unit)))
         pts, wts = c.quadrature(kind)
         rec.transitions += 1
+        g.check(rec, site, 'quadrature', **sub)
         if pts.unit != sc.Unit(unit):
             rec.viol(site, 'wrong_unit', f'points in {pts.unit}, centre in {unit}', **sub)
             continue
@@ -545,9 +637,14 @@ def _run_trans(case, rec):
                 rec.cls('trans_moved_axis_neg_z')
         elif mtype == 'translation':
             rec.cls('trans_motion_translation')
-        c = Cylinder(sc.vector(axis), sc.vector(base, unit=unit), sc.scalar(r, unit=unit), sc.scalar(h, unit=unit))
+        g = _Guard()
+        c = g.cylinder('cylinder', Cylinder(sc.vector(axis), sc.vector(base, unit=unit), sc.scalar(r, unit=unit), sc.scalar(h, unit=unit)))
         det_vals = dets * (TO_M[unit] / TO_M[det_unit])
-        det_var = sc.vectors(dims=['det'], values=det_vals, unit=det_unit)
+        det_var = g.var('detector_position', sc.vectors(dims=['det'], values=det_vals, unit=det_unit))
+        beam_var = g.var('beam_direction', sc.vector(beam))
+        g.var('wavelength', wl)
+        for name, m in mats.items():
+            g.material('material[' + name + ']', m)
         sub0 = {'motion': mname, 'axis': axis, 'base': base}
         # the reference sum over the points the package itself uses (evaluated on the floats received)
         pts, wts = c.quadrature(kind)
@@ -563,7 +660,7 @@ def _run_trans(case, rec):
         col = 0
         for name, _ in mat_items:
             tm = compute_transmission_map(
-                c, mats[name], beam_direction=sc.vector(beam), wavelength=wl,
+                c, mats[name], beam_direction=beam_var, wavelength=wl,
                 detector_position=det_var, quadrature_kind=kind,
             )
             rec.transitions += 1
@@ -577,6 +674,7 @@ def _run_trans(case, rec):
         rec.observe(Tg.tobytes())
         rec.evals += Tg.size
         results[mname] = Tg
+        g.check(rec, site, 'quadrature + compute_transmission_map', **sub0)
         mus = np.array(all_mus)
         # range, mu = 0
         if not np.isfinite(Tg).all():
@@ -631,6 +729,288 @@ def _run_trans(case, rec):
             rec.validated += 1
             if not d <= 1e-10 + cond:
                 rec.viol(site, 'changes_under_translation', f'{mname}: max change {d:.3e} (allowed {1e-10 + cond:.3e})', motion=mname, axis=a0.tolist())
+
+
+# ----------------------------------------------------------------------------------------
+# shared variables: two cylinders built from the same axis / base / size Variables
+
+SHARE_MODES = ('axis', 'base', 'axis+base', 'size')
+SHARE_OPS = tuple((op, who) for who in 'AB' for op in ('quad', 'ray', 'trans'))
+SHARE_SHIFT = [4.0, -7.0, 2.5]
+
+
+def _share_build(case):
+    """-> (guard, {'A': cyl, 'B': cyl}, {'A': plain description, 'B': ...}, call arguments).
+    Every call builds new, independent Variables; within one build the Variables named by
+    ``mode`` are the *same objects* in A and B."""
+    unit, mode = case['unit'], case['mode']
+    a1, a2 = AXES[case['axis']], AXES[case['axis2']]
+    b1 = BASES['near']
+    b2 = (np.array(b1) + np.array(SHARE_SHIFT)).tolist()
+    desc = {'A': {'axis': a1, 'base': b1, 'r': 0.5, 'h': 1.2}}
+    g = _Guard()
+    ax_a, base_a = sc.vector(a1), sc.vector(b1, unit=unit)
+    r_a, h_a = sc.scalar(0.5, unit=unit), sc.scalar(1.2, unit=unit)
+    if mode == 'axis':
+        desc['B'] = {'axis': a1, 'base': b2, 'r': 0.5, 'h': 1.2}
+        ax_b, base_b, r_b, h_b = ax_a, sc.vector(b2, unit=unit), sc.scalar(0.5, unit=unit), sc.scalar(1.2, unit=unit)
+    elif mode == 'base':
+        desc['B'] = {'axis': a2, 'base': b1, 'r': 0.5, 'h': 1.2}
+        ax_b, base_b, r_b, h_b = sc.vector(a2), base_a, sc.scalar(0.5, unit=unit), sc.scalar(1.2, unit=unit)
+    elif mode == 'axis+base':
+        desc['B'] = {'axis': a1, 'base': b1, 'r': 0.35, 'h': 0.7}
+        ax_b, base_b, r_b, h_b = ax_a, base_a, sc.scalar(0.35, unit=unit), sc.scalar(0.7, unit=unit)
+    elif mode == 'size':
+        desc['B'] = {'axis': a2, 'base': b2, 'r': 0.5, 'h': 1.2}
+        ax_b, base_b, r_b, h_b = sc.vector(a2), sc.vector(b2, unit=unit), r_a, h_a
+    else:
+        raise ValueError(mode)
+    cyls = {
+        'A': g.cylinder('A', Cylinder(ax_a, base_a, r_a, h_a)),
+        'B': g.cylinder('B', Cylinder(ax_b, base_b, r_b, h_b)),
+    }
+    args = {}
+    for who, d in desc.items():
+        fr = cyl.Frame(d['axis'], d['base'])
+        r, h = d['r'], d['h']
+        # well-conditioned rays in the frame of the solid as constructed
+        loc = np.array([[0, 0, 0.5 * h], [0, 0, 0.5 * h], [0.3 * r, 0.2 * r, 0.25 * h], [0.3 * r, 0.2 * r, 0.25 * h],
+                        [3 * r, 0.5 * r, 0.4 * h], [0.2 * r, -0.1 * r, -2 * h], [-0.4 * r, 0.3 * r, 0.6 * h], [2 * r, 2 * r, 3 * h]])
+        dl = np.array([[0, 0, 1.0], [0, 0, -1.0], [0.6, 0.3, 0.74], [-0.5, 0.4, -0.77],
+                       [-1.0, -0.1, 0.05], [0.02, 0.03, 1.0], [1.0, 0.2, 0.1], [0.3, -0.2, 1.0]])
+        dirs = fr.to_global_dir(dl)
+        dirs[0] = np.array(d['axis'])  # exactly the axis floats
+        dirs[1] = -np.array(d['axis'])
+        det_loc = np.array([[7.0, 1.0, 0.6], [-3.0, 6.0, -2.0], [0.5, -0.5, 8.0]])
+        args[who] = {
+            'frame': fr,
+            'starts': g.var(who + '.start_point', sc.vectors(dims=['ray'], values=fr.to_global_point(loc), unit=unit)),
+            'dirs': g.var(who + '.direction', sc.vectors(dims=['ray'], values=dirs)),
+            'loc': loc, 'dl': dl / np.linalg.norm(dl, axis=1, keepdims=True),
+            'det': g.var(who + '.detector_position', sc.vectors(dims=['det'], values=fr.to_global_point(det_loc), unit=unit)),
+        }
+    args['beam'] = g.var('beam_direction', sc.vector([0.0, 0.6, 0.8]))
+    args['wl'] = g.var('wavelength', sc.array(dims=['wavelength'], values=[1.0, 4.0], unit='angstrom'))
+    args['mat'] = g.material('material', Material(
+        ScatteringParams('Fake', absorption_cross_section=sc.scalar(0.5, unit=f'{unit}**2'),
+                         total_scattering_cross_section=sc.scalar(0.2, unit=f'{unit}**2')),
+        sc.scalar(1.0, unit=f'1/{unit}**3')))
+    return g, cyls, desc, args
+
+
+def _share_do(op, who, cyls, args, kind):
+    c = cyls[who]
+    if op == 'quad':
+        pts, w = c.quadrature(kind)
+        return {'points': pts, 'weights': w}
+    if op == 'ray':
+        return {'path_lengths': c.beam_intersection(args[who]['starts'], args[who]['dirs'])}
+    tm = compute_transmission_map(c, args['mat'], beam_direction=args['beam'], wavelength=args['wl'],
+                                  detector_position=args[who]['det'], quadrature_kind=kind)
+    return {'transmission': tm.data}
+
+
+_SHARE_SITE = {'quad': 'Cylinder.quadrature', 'ray': 'Cylinder.beam_intersection', 'trans': 'compute_transmission_map'}
+
+
+def _share_judge(rec, op, who, got, want, desc, args, sub):
+    """Result of the last operation of a history: equal to the same operation on freshly
+    built independent objects, and right for the solid as it was constructed."""
+    site = _SHARE_SITE[op]
+    d = desc[who]
+    ok = True
+    for name, v in got.items():
+        rec.validated += 1
+        rec.observe(np.ascontiguousarray(v.values).tobytes())
+        if not sc.identical(v, want[name], equal_nan=True):
+            ok = False
+            rec.viol(site, 'depends_on_history', f'{name} of {who} after {sub["history"]} differs from the result on freshly built objects', output=name, **sub)
+    fr = args[who]['frame']
+    if op == 'quad':
+        loc = fr.np_local_points(got['points'].values)
+        rec.validated += 1
+        if not cyl.np_inside(loc, d['r'], d['h'], 1e-9 * d['r'], 1e-9 * d['h']).all():
+            ok = False
+            rec.viol(site, 'point_outside_solid', f'{who} after {sub["history"]}: points outside the solid {who} was constructed for '
+                     f'(axial range [{loc[:, 2].min() / d["h"]:.4g}, {loc[:, 2].max() / d["h"]:.4g}] h)', **sub)
+    elif op == 'ray':
+        ref = cyl.np_ray_length(args[who]['loc'], args[who]['dl'], d['r'], d['h'])
+        rec.validated += 1
+        if not np.allclose(got['path_lengths'].values, ref, rtol=0, atol=1e-9):
+            ok = False
+            rec.viol(site, 'path_length', f'{who} after {sub["history"]}: {got["path_lengths"].values.tolist()} expected {ref.tolist()}', **sub)
+    return ok
+
+
+def _run_share(case, rec):
+    kind = case['qkind']
+    for a in (AXES[case['axis']], AXES[case['axis2']]):
+        _axis_class(rec, a)
+    rec.cls('share_' + case['mode'])
+    # expected results: every operation on its own freshly built objects
+    want = {}
+    for op, who in SHARE_OPS:
+        g, cyls, desc, args = _share_build(case)
+        want[op, who] = _share_do(op, who, cyls, args, kind)
+        sub = {'history': [op + ':' + who], 'mode': case['mode'], 'axis': AXES[case['axis']]}
+        _share_judge(rec, op, who, want[op, who], want[op, who], desc, args, sub)
+    for depth in range(1, case['depth'] + 1):
+        for hist in itertools.product(SHARE_OPS, repeat=depth):
+            g, cyls, desc, args = _share_build(case)
+            rec.states += 1
+            names = [op + ':' + who for op, who in hist]
+            sub = {'history': names, 'mode': case['mode'], 'axis': AXES[case['axis']]}
+            clean = True
+            for i, (op, who) in enumerate(hist):
+                got = _share_do(op, who, cyls, args, kind)
+                rec.transitions += 1
+                clean &= g.check(rec, _SHARE_SITE[op], f'{names[i]} (step {i + 1} of {names})', **sub)
+            rec.evals += 1
+            # prefixes are histories of their own: only the last result needs judging
+            if _share_judge(rec, op, who, got, want[op, who], desc, args, sub) and clean:
+                rec.cls('history_equals_fresh')
+            if depth > 1 and len({w for _, w in hist}) == 2:
+                rec.nontrivial += 1
+                rec.cls('history_uses_both_cylinders')
+
+
+# ----------------------------------------------------------------------------------------
+# large detector banks: the package switches to a piecewise evaluation when
+# (number of quadrature points) x (number of detector positions) exceeds BROADCAST_LIMIT
+
+BROADCAST_LIMIT = 20_000_000  # as documented in absorption/base.py; used for sizing and class labels only
+LARGE_SHAPES = {  # qkind -> (radius, height) giving the point counts below
+    ('cheap', 60): (1.0, 1.0), ('cheap', 120): (1.0, 2.0), ('cheap', 180): (0.2, 1.2),
+    ('medium', 385): (1.0, 1.0), ('medium', 770): (1.0, 2.0), ('medium', 1375): (0.2, 1.2),
+    ('expensive', 2827): (1.0, 1.0), ('expensive', 5654): (1.0, 2.0), ('expensive', 8995): (0.2, 1.2),
+}
+
+
+def _fibonacci_sphere(n):
+    i = np.arange(n) + 0.5
+    phi = np.arccos(1 - 2 * i / n)
+    theta = math.pi * (1 + 5 ** 0.5) * i
+    return np.stack([np.cos(theta) * np.sin(phi), np.sin(theta) * np.sin(phi), np.cos(phi)], axis=1)
+
+
+def _large_cases(tier):
+    out = []
+
+    def add(kind, npts, pairs, layout, mat, axis='gen_b'):
+        ndet = pairs // npts + 1  # smallest bank with npts * ndet > pairs
+        if layout == '2d':
+            rows = 20 * max(1, pairs // BROADCAST_LIMIT)  # about 1e6 pairs per row
+            shape = [rows, -(-ndet // rows)]
+        else:
+            shape = [ndet]
+        out.append({'kind': 'large', 'qkind': kind, 'npoints': npts, 'shape': shape, 'mat': mat, 'axis': axis})
+
+    L = BROADCAST_LIMIT
+    quick_counts = [('cheap', 180), ('medium', 385), ('medium', 1375), ('expensive', 2827), ('expensive', 8995)]
+    counts = quick_counts if tier == 'quick' else list(LARGE_SHAPES)
+    # the plain one-dimensional bank just above the limit (the package then works detector by detector)
+    add('expensive', 8995, L, '1d', 'atten')
+    if tier == 'thorough':
+        add('expensive', 8995, L, '1d', 'vacuum', axis='diag+--')
+        add('expensive', 2827, L, '1d', 'atten', axis='-z')
+        add('medium', 1375, L, '1d', 'atten', axis='inplane')
+        # just below the limit: one fully vectorised call of 2e7 pairs
+        out.append({'kind': 'large', 'qkind': 'medium', 'npoints': 385, 'shape': [L // 385], 'mat': 'atten', 'axis': 'gen_a'})
+    for k, (kind, npts) in enumerate(counts):
+        axis = ('gen_b', 'diag--+', 'yz-', '+z', 'gen_test')[k % 5]
+        for blocks in (2, 3, 5, 7):
+            for mat in ('atten', 'vacuum'):
+                if tier == 'quick' and (blocks > 3 or (blocks == 3 and (mat == 'vacuum' or npts not in (385, 2827)))):
+                    continue
+                add(kind, npts, (blocks - 1) * L, '2d', mat, axis)
+        # well below the limit and a possible lower limit: same oracle
+        for pairs in (L // 80, L // 8):
+            add(kind, npts, pairs, '1d', 'atten', axis)
+    return out
+
+
+def _run_large(case, rec):
+    kind, npts, shape = case['qkind'], case['npoints'], case['shape']
+    r, h = LARGE_SHAPES[kind, npts]
+    unit = 'mm'
+    size = max(r, h)
+    axis, base = AXES[case['axis']], BASES['near']
+    _axis_class(rec, axis)
+    site = 'compute_transmission_map'
+    sub = {'qkind': kind, 'npoints': npts, 'shape': shape, 'axis': axis}
+    g = _Guard()
+    c = g.cylinder('cylinder', Cylinder(sc.vector(axis), sc.vector(base, unit=unit), sc.scalar(r, unit=unit), sc.scalar(h, unit=unit)))
+    pts, wts = c.quadrature(kind)
+    if pts.sizes['quad'] != npts:
+        raise RuntimeError(f'harness: expected {npts} quadrature points for {kind} r={r} h={h}, got {pts.sizes["quad"]}')
+    ndet = int(np.prod(shape))
+    pairs = npts * ndet
+    fr = cyl.Frame(axis, base)
+    centre = fr.to_global_point(np.array([0.0, 0.0, h / 2]))
+    det_vals = _fibonacci_sphere(ndet) * (7 * size) + centre
+    flat = sc.vectors(dims=['det'], values=det_vals, unit=unit)
+    det = flat if len(shape) == 1 else sc.fold(flat, 'det', sizes={'row': shape[0], 'col': shape[1]})
+    det = g.var('detector_position', det.copy())
+    beam = g.var('beam_direction', sc.vector(_unit([0.2, -0.3, 0.9])))
+    wl = g.var('wavelength', sc.array(dims=['wavelength'], values=[1.0, 4.0], unit='angstrom'))
+    ms, ma = (0.0, 0.0) if case['mat'] == 'vacuum' else (0.6, 0.5)
+    mat = g.material('material', _material('native', unit, ms, ma, size))
+    mus = [cyl.attenuation(1.0 / size, ms, ma, lam) for lam in (1.0, 4.0)]
+    rec.cls('large_above_limit' if pairs > BROADCAST_LIMIT else 'large_below_limit')
+    rec.cls(f'large_pieces_{-(-pairs // BROADCAST_LIMIT)}')
+    rec.cls('large_layout_%dd' % len(shape))
+    for q in (2, 3, 5, 7):
+        if npts % q:
+            rec.cls(f'large_points_not_divisible_by_{q}')
+    rec.cls('large_' + case['mat'])
+
+    tm = compute_transmission_map(c, mat, beam_direction=beam, wavelength=wl, detector_position=det, quadrature_kind=kind)
+    rec.transitions += 1
+    rec.states += 1
+    g.check(rec, site, 'compute_transmission_map', **sub)
+    if set(tm.dims) != set(det.dims) | {'wavelength'} or tm.unit != sc.units.one or any(tm.sizes[d] != det.sizes[d] for d in det.dims):
+        rec.viol(site, 'wrong_shape_or_unit', f'{tm.sizes} {tm.unit} for detectors {det.sizes}', **sub)
+        return
+    if not (sc.identical(tm.coords['wavelength'], wl) and sc.identical(tm.coords['detector_position'], det)):
+        rec.viol(site, 'coords_changed', 'coordinates of the map differ from the arguments', **sub)
+    T = tm.data.transpose([*det.dims, 'wavelength']).values.reshape(ndet, 2)
+    rec.observe(T.tobytes())
+    rec.evals += T.size
+    wtol = W_TOL[kind]
+    if not np.isfinite(T).all() or (T <= 0).any() or (T > 1 + wtol).any():
+        rec.viol(site, 'out_of_range', f'range [{float(np.nanmin(T))!r}, {float(np.nanmax(T))!r}] not in (0, 1]', **sub)
+        return
+    if case['mat'] == 'vacuum':
+        rec.validated += 1
+        if (np.abs(T - 1) > wtol).any():
+            rec.viol(site, 'not_one_without_attenuation', f'{ndet} detectors x {npts} points: max |T-1| = {np.abs(T - 1).max():.3e} at mu = 0', **sub)
+    # the same detectors in small calls (far below any limit): the value for a detector
+    # does not depend on how many other detectors are in the call
+    step = max(1, 500_000 // npts)
+    idx = range(0, ndet, step) if case['mat'] != 'vacuum' else range(0, min(ndet, step), step)
+    worst = 0.0
+    for i0 in idx:
+        sm = compute_transmission_map(c, mat, beam_direction=beam, wavelength=wl, detector_position=flat['det', i0:i0 + step], quadrature_kind=kind)
+        rec.transitions += 1
+        Ts = sm.data.transpose(['det', 'wavelength']).values
+        ref = Ts if case['mat'] != 'vacuum' else Ts[:1]
+        tgt = T[i0:i0 + step] if case['mat'] != 'vacuum' else T
+        worst = max(worst, float(np.abs(tgt - ref).max()))
+    rec.validated += 1
+    if not worst <= 1e-12:
+        rec.viol(site, 'depends_on_bank_size', f'{ndet} detectors x {npts} points: values differ by up to {worst:.3e} from the same detectors computed in calls of {step}', **sub)
+    else:
+        rec.cls('large_equals_small_calls')
+    # reference sum over the returned points for a spread of detectors
+    pick = np.unique(np.linspace(0, ndet - 1, 24).astype(int))
+    model = cyl.transmission_sum(fr.np_local_points(pts.values), wts.values, math.pi * r * r * h, r, h,
+                                 fr.np_local_dirs(np.array(beam.values)), fr.np_local_points(det_vals[pick]), mus)
+    cond = 64 * EPS * max(mus) * (float(np.linalg.norm(base)) + 8 * size)
+    rec.validated += 1
+    if np.abs(T[pick] - model).max() > 1e-10 + cond:
+        j = int(np.argmax(np.abs(T[pick] - model).max(axis=1)))
+        rec.viol(site, 'differs_from_sum_over_points', f'detector {int(pick[j])} of {ndet}: map {T[pick[j]].tolist()}, sum over the returned points with exact path lengths {model[j].tolist()}', **sub)
+    rec.nontrivial += 1
 
 
 def _run_reuse(case, rec):
@@ -689,6 +1069,10 @@ def run_case(case, rec):
     k = case['kind']
     if k == 'reuse':
         _run_reuse(case, rec)
+    elif k == 'share':
+        _run_share(case, rec)
+    elif k == 'large':
+        _run_large(case, rec)
     elif k == 'rays':
         _run_rays(case, rec)
     elif k == 'quad':
